@@ -134,6 +134,11 @@ def c06c(ctx, tu):
         if fn.rec["clsq"].endswith("<0>"):
             continue
         l = loop_of(fn, "trompeloeil::sequence_matcher::retire")
+        if l is None:
+            # no loop in sight (visitor helper, algorithm): the rule cannot see how the handles are visited
+            ctx.ob("C06.c.retire", "trompeloeil::sequence_matchers::retire", None, pattern=fn.pat, unit=tu.name, inst=fn.q,
+                   detail="the walk over the expectation's handles is not a loop this rule recognises")
+            continue
         ok = l is not None and not l["exit_edges"]
         ctx.ob("C06.c.retire", "trompeloeil::sequence_matchers::retire", ok, pattern=fn.pat, unit=tu.name, inst=fn.q,
                detail="" if ok else "retire must visit every handle of the expectation")
@@ -141,6 +146,10 @@ def c06c(ctx, tu):
         if fn.rec["clsq"].endswith("<0>"):
             continue
         l = loop_of(fn, "trompeloeil::sequence_matcher::retire_predecessors")
+        if l is None:
+            ctx.ob("C05.d.3", "trompeloeil::sequence_matchers::retire_predecessors", None, pattern=fn.pat, unit=tu.name,
+                   inst=fn.q, detail="the walk over the expectation's sequences is not a loop this rule recognises")
+            continue
         ok = l is not None and not l["exit_edges"]
         ctx.ob("C05.d.3", "trompeloeil::sequence_matchers::retire_predecessors", ok, pattern=fn.pat, unit=tu.name,
                inst=fn.q, detail="" if ok else "retire_predecessors must visit every sequence of the expectation")
